@@ -42,6 +42,7 @@ func init() {
 	generators["ctxcancel"] = genCtxCancel
 	generators["nowaitrestart"] = genNoWaitRestart
 	generators["newlogline"] = genNewLogLine
+	generators["healthupd"] = genHealthUpd
 	generators["chaintakeover"] = genChainTakeover
 }
 
@@ -2542,6 +2543,43 @@ func genNewLogLine(r rng, k int) *Spec {
 		Action{At: 4 * sec, Kind: "outdel", Inst: "g0"},
 	)
 	s.Duration = 3*s.TTL + 2*sec
+	s.Sample = sampleFor(h)
+	return s
+}
+
+// ---------------------------------------------------------------------------
+// healthupd: threshold-1 unhealthy ticks, then a HEALTHY tick whose refresh fails
+// (transient error / lost acknowledgement), then one more unhealthy tick. The healthy
+// report restarts the count whatever happens to that tick's refresh.
+// ---------------------------------------------------------------------------
+
+// HealthUpdTotal is the size of the enumeration.
+func HealthUpdTotal() int { return 3 * 3 * 2 }
+
+func genHealthUpd(r rng, k int) *Spec {
+	idx := k % HealthUpdTotal()
+	m := 2 + idx%3
+	idx /= 3
+	kind := []string{"err", "acklost", "err"}[idx%3]
+	errk := []string{"timeout", "timeout", "noresponders"}[idx%3]
+	idx /= 3
+	tail := 1 + idx%2 // unhealthy ticks after the healthy one (always below the threshold)
+	if tail >= m {
+		tail = m - 1
+	}
+	h := r.pickD(500*ms, 1*sec)
+	s := &Spec{TTL: 10 * h, NoPreempt: true, Tags: []string{"health", "healthupd"}}
+	s.Lat = Latency{Max: r.pickD(0, 2*ms)}
+	s.Insts = mkInsts(1, 1, h)
+	j := 2 + r.IntN(3)
+	// tick numbers (= Update ordinals of i0): j healthy, m-1 unhealthy (no refresh on those),
+	// then the healthy tick j+m whose refresh fails
+	s.Insts[0].Health = strings.Repeat("h", j) + strings.Repeat("u", m-1) + "h" + strings.Repeat("u", tail) + strings.Repeat("h", 60)
+	s.Insts[0].HealthOn, s.Insts[0].MaxFail = true, m
+	// unhealthy ticks issue no Update: the failing one is Update number j+1
+	s.Rules = append(s.Rules, FaultRule{Client: "i0", Op: "Update", FromOrd: j + 1, ToOrd: j + 1, Kind: kind, Err: errk})
+	s.Actions = append(s.Actions, Action{At: 10 * ms, Kind: "start", Inst: "i0"})
+	s.Duration = time.Duration(j+m+tail+6) * h
 	s.Sample = sampleFor(h)
 	return s
 }
